@@ -439,4 +439,27 @@ PROPS = {
                  "(generated rules, plan)."),
         "assumptions": [],
     },
+    "C18": {
+        "engine": "py", "engine_name": "hypothesis-cli-runner", "script": "c18.py", "level": "exploration",
+        "technique": "property-based testing (Hypothesis) of the yara / yarac binaries as subprocesses: multi-threaded directory and scan-list runs vs per-file single-threaded runs; source vs compiled rules",
+        "level_text": ("Hypothesis generates directory trees (0-200 files, usually more than the 64 queue slots, PE / ELF / "
+                       "Mach-O / text / xor / empty / 240 KB files, nested directories with -r), rule files drawn from 14 rules "
+                       "(tags, metas, private and global rules, namespaces via ns:file, xor and regexp strings, entrypoint, "
+                       "pe / elf / hash / math, externals), an option subset of -s -L -X -m -g -e -c -n -f -w -t -i -q and "
+                       "thread counts from {1,2,3,4,8,16,32}. The ASan-built `yara` scans every file separately with -p 1, "
+                       "then the directory three times per thread count, then a --scan-list, then `yarac` + `yara -C` with "
+                       "the externals given at both stages, at yarac only, or overridden at scan time. Oracle: equal "
+                       "multisets of output blocks (rule line + its string lines), exit status non-zero exactly when stderr "
+                       "has an `error` line, no sanitizer report."),
+        "level_note": ("Thread schedules are sampled (three repetitions per thread count), not controlled; `-l` is not "
+                       "generated (a global cut-off by design); console.log rules are not generated (their output is printed "
+                       "outside the output lock)."),
+        "quick": (4, 5), "thorough": (16, 25),
+        "floor": 2,
+        "rule": ("case = one generated (tree, rules, options, thread counts, externals stage); a few hundred process "
+                 "launches each; `evaluations` counts yara/yarac invocations. Non-trivial: > 64 files of >= 2 kinds, >= 2 "
+                 "threads, an option printing multi-line blocks (-s/-L/-X) and >= 1 matching file; distinct by hash of the "
+                 "case summary."),
+        "assumptions": ["a block is a rule line plus the following lines that start with 0x"],
+    },
 }
